@@ -13,6 +13,7 @@ import LolHtml.Lane.Edit
 import LolHtml.Lane.Attrs
 import LolHtml.Lane.Full
 import LolHtml.Lane.Tb
+import LolHtml.Lane.TbSim
 
 namespace LolHtml.Lane
 
@@ -34,7 +35,8 @@ def registry : List (String × (String → String)) :=
     ("attrs", Attrs.run),
     ("full", Full.run),
     ("tb", Tb.run),
-    ("tbm", Tb.runModes) ]
+    ("tbm", Tb.runModes),
+    ("tbs", TbSim.run) ]
 
 def find (name : String) : Option (String → String) :=
   (registry.find? (·.1 == name)).map (·.2)
